@@ -17,157 +17,13 @@ import Glb.Model.NanoHandler
 import Glb.Model.TextHandler
 import Glb.Spec.Json
 import Glb.Tie.TrJsonString
+import Glb.Tie.TrLevel
 
 namespace Glb.Tie.TrJson
-open Glb.Go
+open Glb.Go Glb.Tie.TrLevel
 
-/-! ### payload erasure
-
-`Glb.Go.idxI` / `Glb.Go.slice` and the models' own `idxI?` / `sliceI?` panic on exactly the same
-inputs, but the payload of the panic for a NEGATIVE index differs (`.other "index<0"` vs
-`.other "index out of range (negative)"`, `.other "slice<0"` vs `.other "slice bounds out of range
-(negative)"`).  So every comparison below comes in two forms:
-  * `…_eq`     : for ALL inputs, equality after `Except.toOption` (ok-results agree, and one side
-                 errs iff the other errs);
-  * `…_exact`  : exact equality (payloads included) whenever no negative index is formed. -/
-
-theorem toOption_bind_congr {α β} {a a' : M α} {f f' : α → M β}
-    (h : a.toOption = a'.toOption) (hf : ∀ x, (f x).toOption = (f' x).toOption) :
-    (a >>= f).toOption = (a' >>= f').toOption := by
-  cases a <;> cases a' <;> simp_all [Except.toOption, bind, Except.bind]
-
-theorem idxI_toOption (s : Bytes) (i : Int) :
-    (idxI s i).toOption = (Glb.Aux.DateTime.idxI? s i).toOption := by
-  unfold idxI Glb.Aux.DateTime.idxI?
-  by_cases h : 0 ≤ i
-  · have h' : ¬ i < 0 := by omega
-    simp [h, h']
-  · have h' : i < 0 := by omega
-    simp [h, h', Except.toOption]
-
-theorem idxI_exact (s : Bytes) (i : Int) (h : 0 ≤ i) :
-    idxI s i = Glb.Aux.DateTime.idxI? s i := by
-  have h' : ¬ i < 0 := by omega
-  simp [idxI, Glb.Aux.DateTime.idxI?, h, h']
-
-theorem slice_toOption (s : Bytes) (lo hi : Int) :
-    (slice s lo hi).toOption = (Glb.Aux.DateTime.sliceI? s lo hi).toOption := by
-  unfold slice Glb.Aux.DateTime.sliceI?
-  by_cases h : 0 ≤ lo ∧ 0 ≤ hi
-  · have h' : ¬ (lo < 0 ∨ hi < 0) := by omega
-    simp [h, h']
-  · have h' : lo < 0 ∨ hi < 0 := by omega
-    simp [h, h', Except.toOption]
-
-theorem slice_exact (s : Bytes) (lo hi : Int) (h : 0 ≤ lo) (h2 : 0 ≤ hi) :
-    slice s lo hi = Glb.Aux.DateTime.sliceI? s lo hi := by
-  have h' : ¬ (lo < 0 ∨ hi < 0) := by omega
-  simp [slice, Glb.Aux.DateTime.sliceI?, h, h2, h']
-
-/-! ### appendFullLevel / appendShortLevel (colour off)
-
-The models (`JsonHandler.fullLevel`, `TextHandler.fullLevel`, `NanoHandler.shortLevel`) return the
-label; the translated functions return `buf ++ label`.  Payloads differ only for a negative index
-(`l + 2 < 0`, resp. `l < 0`): `…_eq` is the `toOption` form for all inputs, `…_exact` the exact
-equality when the index is non-negative (out-of-range panics included). -/
-
-theorem map_toOption_congr {α β} {a a' : M α} (f : α → β)
-    (h : a.toOption = a'.toOption) : (a >>= fun x => pure (f x)).toOption = (Except.map f a').toOption := by
-  cases a <;> cases a' <;> simp_all [Except.toOption, Except.map, bind, Except.bind, pure, Except.pure]
-
-theorem bind_pure_eq_map {α β} (a : M α) (f : α → β) :
-    (a >>= fun x => pure (f x)) = Except.map f a := by
-  cases a <;> rfl
-
-theorem idxI_fullLevel_toOption (l : Int) :
-    (idxI Glb.Generated.labelList (l + 2)).toOption = (Glb.JsonHandler.fullLevel l).toOption := by
-  unfold idxI Glb.JsonHandler.fullLevel
-  by_cases h : 0 ≤ l + 2
-  · have h' : ¬ l + 2 < 0 := by omega
-    simp [h, h']
-  · have h' : l + 2 < 0 := by omega
-    simp [h, h', Except.toOption]
-
-theorem idxI_fullLevel_exact (l : Int) (h : 0 ≤ l + 2) :
-    idxI Glb.Generated.labelList (l + 2) = Glb.JsonHandler.fullLevel l := by
-  have h' : ¬ l + 2 < 0 := by omega
-  simp [idxI, Glb.JsonHandler.fullLevel, h, h']
-
-theorem appendFullLevel_eq (buf : Bytes) (l : Int) :
-    (Glb.Tr.Logger.appendFullLevel buf l false).toOption
-      = (Except.map (fun x => buf ++ x) (Glb.JsonHandler.fullLevel l)).toOption := by
-  unfold Glb.Tr.Logger.appendFullLevel
-  simp only [idx_int, Bool.false_eq_true, if_false, bind_assoc, pure_bind]
-  exact map_toOption_congr _ (idxI_fullLevel_toOption l)
-
-theorem appendFullLevel_exact (buf : Bytes) (l : Int) (h : -2 ≤ l) :
-    Glb.Tr.Logger.appendFullLevel buf l false
-      = Except.map (fun x => buf ++ x) (Glb.JsonHandler.fullLevel l) := by
-  unfold Glb.Tr.Logger.appendFullLevel
-  simp only [idx_int, Bool.false_eq_true, if_false, bind_assoc, pure_bind]
-  rw [idxI_fullLevel_exact l (by omega), bind_pure_eq_map]
-
-/-- `TextHandler.fullLevel` has a third payload for the negative index (`.indexRange 0 len`) -/
-theorem fullLevel_text_json (l : Int) :
-    (Glb.TextHandler.fullLevel l).toOption = (Glb.JsonHandler.fullLevel l).toOption ∧
-    (-2 ≤ l → Glb.TextHandler.fullLevel l = Glb.JsonHandler.fullLevel l) := by
-  unfold Glb.TextHandler.fullLevel Glb.JsonHandler.fullLevel
-  by_cases h : l + 2 < 0
-  · exact ⟨by simp [h, Except.toOption], by omega⟩
-  · simp [h]
-
-theorem appendFullLevel_text_eq (buf : Bytes) (l : Int) :
-    (Glb.Tr.Logger.appendFullLevel buf l false).toOption
-      = (Except.map (fun x => buf ++ x) (Glb.TextHandler.fullLevel l)).toOption := by
-  rw [appendFullLevel_eq]
-  have := (fullLevel_text_json l).1
-  cases h1 : Glb.TextHandler.fullLevel l <;> cases h2 : Glb.JsonHandler.fullLevel l <;>
-    simp_all [Except.toOption, Except.map]
-
-theorem appendFullLevel_text_exact (buf : Bytes) (l : Int) (h : -2 ≤ l) :
-    Glb.Tr.Logger.appendFullLevel buf l false
-      = Except.map (fun x => buf ++ x) (Glb.TextHandler.fullLevel l) := by
-  rw [appendFullLevel_exact buf l h, (fullLevel_text_json l).2 h]
-
-/-! closed forms for the five valid levels -/
-
-/-- colour off, valid level: the level's name (`Json.levelName`) is appended, no panic -/
-theorem appendFullLevel_valid (buf : Bytes) (l : Int) (h : l = 0 ∨ l = 4 ∨ l = 8 ∨ l = 12 ∨ l = 16) :
-    Glb.Tr.Logger.appendFullLevel buf l false = .ok (buf ++ Glb.Json.levelName l) := by
-  rw [appendFullLevel_exact buf l (by omega)]
-  rcases h with h | h | h | h | h <;> subst h <;> rfl
-
-theorem appendFullLevel_debug (buf : Bytes) :
-    Glb.Tr.Logger.appendFullLevel buf Glb.Generated.levelDebug false
-      = .ok (buf ++ [0x44, 0x45, 0x42, 0x55, 0x47]) :=   -- DEBUG
-  appendFullLevel_valid buf 0 (by omega)
-theorem appendFullLevel_info (buf : Bytes) :
-    Glb.Tr.Logger.appendFullLevel buf Glb.Generated.levelInfo false
-      = .ok (buf ++ [0x49, 0x4E, 0x46, 0x4F]) :=         -- INFO
-  appendFullLevel_valid buf 4 (by omega)
-theorem appendFullLevel_warn (buf : Bytes) :
-    Glb.Tr.Logger.appendFullLevel buf Glb.Generated.levelWarn false
-      = .ok (buf ++ [0x57, 0x41, 0x52, 0x4E]) :=         -- WARN
-  appendFullLevel_valid buf 8 (by omega)
-theorem appendFullLevel_error (buf : Bytes) :
-    Glb.Tr.Logger.appendFullLevel buf Glb.Generated.levelError false
-      = .ok (buf ++ [0x45, 0x52, 0x52, 0x4F, 0x52]) :=   -- ERROR
-  appendFullLevel_valid buf 12 (by omega)
-theorem appendFullLevel_fatal (buf : Bytes) :
-    Glb.Tr.Logger.appendFullLevel buf Glb.Generated.levelFatal false
-      = .ok (buf ++ [0x46, 0x41, 0x54, 0x41, 0x4C]) :=   -- FATAL
-  appendFullLevel_valid buf 16 (by omega)
-
-theorem appendFullLevel_panics (buf : Bytes) (l : Int) (h : l < -2 ∨ 17 < l) :
-    (Glb.Tr.Logger.appendFullLevel buf l false).toOption = none := by
-  rw [appendFullLevel_eq]
-  unfold Glb.JsonHandler.fullLevel
-  by_cases h' : l + 2 < 0
-  · simp [h', Except.map, Except.toOption]
-  · have : Glb.Generated.labelList[(l + 2).toNat]? = none := by
-      have : Glb.Generated.labelList.length = 20 := by decide
-      simp; omega
-    simp [h', Glb.idx?, this, Except.map, Except.toOption]
+-- the level-label lemmas moved to Tie/TrLevel.lean; their old names stay available here
+export Glb.Tie.TrLevel (toOption_bind_congr idxI_toOption idxI_exact slice_toOption slice_exact map_toOption_congr bind_pure_eq_map idxI_fullLevel_toOption idxI_fullLevel_exact appendFullLevel_eq appendFullLevel_exact fullLevel_text_json appendFullLevel_text_eq appendFullLevel_text_exact appendFullLevel_valid appendFullLevel_debug appendFullLevel_info appendFullLevel_warn appendFullLevel_error appendFullLevel_fatal appendFullLevel_panics)
 
 /-! ### the source-trimming loop of appendNanoSource / appendJsonSource -/
 
